@@ -150,12 +150,17 @@ func RTCP(channel byte, ssrc, rtpTS uint32) *Pub {
 type Rec struct {
 	Name string
 
-	mu          sync.Mutex
-	got         []media.Pack
-	closed      int
-	gate        chan struct{} // non-nil: Consume blocks until it is closed
-	parked      bool
-	PanicAt     int  // panic when the n-th pack (1-based) arrives; 0 = never
+	mu      sync.Mutex
+	got     []media.Pack
+	closed  int
+	gate    chan struct{} // non-nil: Consume blocks until it is closed
+	parked  bool
+	PanicAt int // panic when the n-th pack (1-based) arrives; 0 = never
+	// Fingerprint, when set, is taken of every pack at the moment it arrives; Changed
+	// later reports packs whose fingerprint differs from then (a shared pack that some
+	// other consumer modified).
+	Fingerprint func(p media.Pack) uint64
+	fps         []uint64
 	ClosePanics bool // Close counts the call and then panics too (e.g. a consumer whose connection is nil)
 }
 
@@ -178,6 +183,9 @@ func (r *Rec) Consume(p media.Pack) {
 	}
 	r.mu.Lock()
 	r.got = append(r.got, p)
+	if r.Fingerprint != nil {
+		r.fps = append(r.fps, r.Fingerprint(p))
+	}
 	n := len(r.got)
 	pa := r.PanicAt
 	r.mu.Unlock()
@@ -196,6 +204,20 @@ func (r *Rec) Close() error {
 		panic("verif: consumer's Close panics on purpose")
 	}
 	return nil
+}
+
+// Changed returns the positions of received packs whose fingerprint is no longer
+// what it was when they arrived.
+func (r *Rec) Changed() []int {
+	r.mu.Lock()
+	defer r.mu.Unlock()
+	var out []int
+	for i, p := range r.got {
+		if i < len(r.fps) && r.Fingerprint(p) != r.fps[i] {
+			out = append(out, i)
+		}
+	}
+	return out
 }
 
 // Block makes the next Consume call park until Release.
